@@ -39,7 +39,7 @@ var runaways = 0
 /* ops with their own internal watchdog get a generous outer one */
 func timeoutFor(op string) time.Duration {
 	if op == "uistress" {
-		return 120 * time.Second
+		return 300 * time.Second
 	}
 	return opTimeout
 }
